@@ -344,7 +344,14 @@ func (se *specEnv) coerce(v Val, to types.Type) Val {
 	}
 	if v.typ == types.Typ[types.UntypedFloat] {
 		if _, _, ok := fpParams(to); ok {
-			c := constant.MakeFromLiteral(v.term, token.FLOAT, 0)
+			txt, neg := v.term, false
+			if strings.HasPrefix(txt, "-") {
+				txt, neg = txt[1:], true
+			}
+			c := constant.MakeFromLiteral(txt, token.FLOAT, 0)
+			if neg {
+				c = constant.UnaryOp(token.SUB, c, 0)
+			}
 			return Val{term: se.f.e.constTerm(c, to), typ: to}
 		}
 	}
@@ -484,11 +491,11 @@ func (se *specEnv) eval(x ast.Expr) (out Val) {
 		case token.NOT:
 			return boolVal(fmt.Sprintf("(not %s)", v.term))
 		case token.SUB:
-			if v.typ == untypedInt {
+			if v.typ == untypedInt || v.typ == types.Typ[types.UntypedFloat] {
 				if strings.HasPrefix(v.term, "-") {
-					return Val{term: v.term[1:], typ: untypedInt}
+					return Val{term: v.term[1:], typ: v.typ}
 				}
-				return Val{term: "-" + v.term, typ: untypedInt}
+				return Val{term: "-" + v.term, typ: v.typ}
 			}
 			if _, _, ok := fpParams(v.typ); ok {
 				return Val{term: fmt.Sprintf("(fp.neg %s)", v.term), typ: v.typ}
@@ -712,6 +719,8 @@ func (se *specEnv) evalCall(n *ast.CallExpr) Val {
 			switch u := v.typ.Underlying().(type) {
 			case *types.Array:
 				return Val{term: e.idxLit(u.Len()), typ: types.Typ[types.Int]}
+			case *types.Map:
+				return Val{term: e.mapLen(se.st, v.term), typ: types.Typ[types.Int]}
 			}
 			return Val{term: fmt.Sprintf("(s_len %s)", v.term), typ: types.Typ[types.Int]}
 		case "cap":
@@ -803,6 +812,9 @@ func (se *specEnv) evalCall(n *ast.CallExpr) Val {
 					names[k] = v
 				}
 			}
+			if pd.sum {
+				return se.ghostSum(id.Name, pd, names)
+			}
 			revealed := !pd.opaque
 			if rc := se.f.rootCtr(); rc != nil && pd.opaque {
 				for _, r := range rc.Reveal {
@@ -879,4 +891,86 @@ func (se *specEnv) evalCall(n *ast.CallExpr) Val {
 // evalTopAny evaluates a macro body, which may be boolean (with ==> etc.) or a term.
 func (se *specEnv) evalTopAny(src string) Val {
 	return se.evalTop(src)
+}
+
+// ghostSum evaluates NAME(s, k) for a prefix-sum ghost function: an
+// uninterpreted function of the slice value, the heaps the summand reads and
+// the index, with its two defining axioms emitted once per (slice, heaps).
+func (se *specEnv) ghostSum(name string, pd predDef, names map[string]Val) Val {
+	e := se.f.e
+	if e.sc.arith != "int" {
+		panic("ghostsum " + name + " needs mode int")
+	}
+	sv, kv := names[pd.params[0]], names[pd.params[1]]
+	if _, ok := sv.typ.Underlying().(*types.Slice); !ok {
+		panic("ghostsum " + name + ": first argument is not a slice")
+	}
+	kv = se.coerce(kv, types.Typ[types.Int])
+	// which heaps does the summand read?
+	saveLog := e.readLog
+	e.readLog = map[string]bool{}
+	nd := len(e.decls)
+	probe := map[string]Val{}
+	for k, v := range se.names {
+		probe[k] = v
+	}
+	probe[pd.params[0]] = sv
+	probe[pd.params[1]] = Val{term: "q_gsprobe", typ: types.Typ[types.Int]}
+	func() {
+		defer func() { recover() }()
+		se.child(probe).evalAny(pd.body)
+	}()
+	reads := sortedKeys(e.readLog)
+	e.readLog = saveLog
+	if saveLog != nil {
+		for _, r := range reads {
+			saveLog[r] = true
+		}
+	}
+	keep := e.decls[:nd]
+	for _, d := range e.decls[nd:] {
+		if !strings.HasPrefix(d, "(assert ") {
+			keep = append(keep, d)
+		}
+	}
+	e.decls = keep
+	argTerms := []string{sv.term}
+	argSorts := []string{"Slice"}
+	for _, r := range reads {
+		argTerms = append(argTerms, e.heapByName(se.st, r))
+		argSorts = append(argSorts, e.hsort[r])
+	}
+	sym := "gs_" + name
+	sig := "(" + strings.Join(append(append([]string{}, argSorts...), "Int"), " ") + ") Int"
+	if e.opaqueSig == nil {
+		e.opaqueSig = map[string]string{}
+	}
+	if old, ok := e.opaqueSig[sym]; !ok {
+		e.opaqueSig[sym] = sig
+		e.decls = append(e.decls, fmt.Sprintf("(declare-fun %s %s)", sym, sig))
+		e.declared[sym] = true
+	} else if old != sig {
+		panic("ghostsum " + name + " used at two different signatures")
+	}
+	prefix := "(" + sym + " " + strings.Join(argTerms, " ")
+	inst := prefix
+	if e.sumInst == nil {
+		e.sumInst = map[string]bool{}
+	}
+	if !e.sumInst[inst] && !strings.Contains(inst, "q_") {
+		e.sumInst[inst] = true
+		e.noteAssumed("ghost definition (prefix sum): " + name + "(s,0) == 0, " + name + "(s,i+1) == " + name + "(s,i) + " + pd.body)
+		body := map[string]Val{}
+		for k, v := range se.names {
+			body[k] = v
+		}
+		body[pd.params[0]] = sv
+		body[pd.params[1]] = Val{term: "q_gsi", typ: types.Typ[types.Int]}
+		summand := se.child(body).evalAny(pd.body)
+		summand = se.coerce(summand, types.Typ[types.Int])
+		e.decls = append(e.decls, fmt.Sprintf("(assert (= %s 0) 0))", prefix))
+		e.decls = append(e.decls, fmt.Sprintf("(assert (forall ((q_gsi Int)) (! (=> (and (<= 0 q_gsi) (< q_gsi (s_len %s))) (= %s (+ q_gsi 1)) (+ %s q_gsi) %s))) :pattern (%s (+ q_gsi 1))))))",
+			sv.term, prefix, prefix, summand.term, prefix))
+	}
+	return Val{term: prefix + " " + kv.term + ")", typ: types.Typ[types.Int]}
 }
